@@ -220,7 +220,10 @@ def run(seed, tier, lean) -> Result:
             break
     for _ in range(100 if tier == 'quick' else 600):
         cs = r.getrandbits(48)
-        bad, info = generated_case(random.Random(cs))
+        from ..common import guarded
+        done, bi = guarded(res, generated_case, random.Random(cs))
+        if not done: continue
+        bad, info = bi
         res.evaluations += 1; res.bump('generated_graph_cases')
         if bad:
             res.violations.append(Violation(what=f'{bad} (graph generated from a language and model; steps: {info["steps"]})',
